@@ -204,7 +204,12 @@ def fields(draw, versions: list[int], flex: set[int], top: int, depth: int, stru
                 sname = None
                 if depth < 2:
                     for _ in range(20):
-                        cand = "Zed" + draw(st.sampled_from(WORDS)) + draw(st.sampled_from(["Data", "Info", "Entry", "Item", "Spec"]))
+                        if draw(st.integers(0, 2)) == 0:
+                            # a small shared pool: different definitions of one generator run then often declare same-named
+                            # structs of different shapes (upstream: TopicData, PartitionData, ... in many messages)
+                            cand = draw(st.sampled_from(["TopicData", "PartitionData", "ZedSharedItem"]))
+                        else:
+                            cand = "Zed" + draw(st.sampled_from(WORDS)) + draw(st.sampled_from(["Data", "Info", "Entry", "Item", "Spec"]))
                         if cand not in struct_names:
                             sname = cand
                             struct_names.add(cand)
